@@ -457,6 +457,11 @@ Definition write_back (t : ptable) (v : vnew) (h : nat) : ptable :=
   | None => t
   end.
 
+(* vnacal_get_fmin / vnacal_get_fmax of a calibration: None = HUGE_VAL with errno EINVAL, the answer for a
+   calibration without frequency points (the record fields c_fmin / c_fmax are then unused) *)
+Definition frange_opt (nf fmin fmax : Z) : option (Z * Z) := if (nf =? 0)%Z then None else Some (fmin, fmax).
+Definition cal_frange (c : cal) : option (Z * Z) := frange_opt (c_nf c) (c_fmin c) (c_fmax c).
+
 Definition type_out (ty : Z) : Z := ty.     (* VNACAL_E12 is solved as UE14 and converted back *)
 
 Definition set_prop (c : cal) (tok : option Z) : cal :=
@@ -573,7 +578,7 @@ Definition step_gen (asis : bool) (s : state) (o : op) : state * outcome :=
     | Some v =>
       (* as coded: the loops over the vector (negative / NaN, ascending) and
          _vnacal_new_check_all_frequency_ranges run only over existing elements: with 0 frequencies nothing
-         is read and the call succeeds whatever pointer it is given *)
+         is read and the call succeeds (a NULL pointer is refused before that; the script cannot express it) *)
       if ((0 <? vn_nf v) && (f0 <? 0)%Z)%bool then (s, fail_usage)
       else
         let fmax := (f0 + Z.of_nat (vn_nf v) - 1)%Z in
